@@ -6,6 +6,8 @@
 import RSVerif.Proofs.TableInitSpec
 import RSVerif.Proofs.SrcUtilsSpec
 import RSVerif.Proofs.SrcTablesSpec
+import RSVerif.Proofs.SrcMulSpec
+import RSVerif.Model.Simd
 
 namespace RS
 
@@ -52,5 +54,39 @@ theorem logWalshArr_u16 : logWalshArr.size = 65536 ∧ ∀ i, logWalshArr.getD i
   · rw [logWalshArr_def, RS.SrcU.UAux.fwht_size, hl, Array.size_setIfInBounds]; exact initExpLog_log_size
   · rw [logWalshArr_def, hl]
     exact RS.SrcU.UAux.fwht_u16 _ 65536 (set0_u16 _ initExpLog_u16.2)
+
+/-- the 16 bytes of row `k` of entry `logm` of a flattened `lo` / `hi` table, as the SIMD kernels load them -/
+def rowOfTable (t : Array Nat) (logm k : Nat) : V128 :=
+  Vector.ofFn fun (x : Fin 16) => BitVec.ofNat 8 (t.getD ((logm * 4 + k) * 16 + x.val) 0)
+
+/-- the translated `initialize_mul16` / `initialize_mul128` on the constructed `exp` / `log` tables: every entry is the
+    nibble product of the model, so the rows the SIMD kernels load are `lutLo` / `lutHi` of the multiplier
+    `g^logm` — the parameter `Proofs/SrcKernelSpec.lean` assumes -/
+theorem src_mul_tables :
+    (∃ t, RS.SrcU.U_initialize_mul16 initExpLog.1 initExpLog.2 = some t ∧
+      ∀ logm k i, logm ≤ 65535 → k < 4 → i < 16 →
+        t.getD ((logm * 4 + k) * 16 + i) 0 = (lut16 (fun y => gmul (gexp logm) y) k i).toNat) ∧
+    (∃ lo hi, RS.SrcU.U_initialize_mul128 initExpLog.1 initExpLog.2 = some (lo, hi) ∧
+      ∀ logm k, logm ≤ 65535 → k < 4 →
+        rowOfTable lo logm k = lutLo (fun y => gmul (gexp logm) y) k ∧
+        rowOfTable hi logm k = lutHi (fun y => gmul (gexp logm) y) k) := by
+  have hu := initExpLog_u16
+  constructor
+  · obtain ⟨t, h1, _, h3⟩ := RS.SrcU.src_initialize_mul16 _ _ initExpLog_exp_size initExpLog_log_size hu.1 hu.2
+    refine ⟨t, h1, fun logm k i hm hk hi => ?_⟩
+    rw [h3 logm k i (by omega) hk hi, initMul16Entry_initExpLog logm k i hm hk hi]
+  · have h := RS.SrcU.src_initialize_mul128 _ _ initExpLog_exp_size initExpLog_log_size hu.1 hu.2
+    obtain ⟨lo, hi, h1, _, _, h4⟩ := h
+    refine ⟨lo, hi, h1, fun logm k hm hk => ⟨?_, ?_⟩⟩
+    · apply Vector.ext
+      intro x hx
+      have := (h4 logm k x (by omega) hk hx).1
+      simp only [rowOfTable, lutLo, Vector.getElem_ofFn]
+      rw [this, initMul16Entry_initExpLog logm k x hm hk hx]
+    · apply Vector.ext
+      intro x hx
+      have := (h4 logm k x (by omega) hk hx).2
+      simp only [rowOfTable, lutHi, Vector.getElem_ofFn]
+      rw [this, initMul16Entry_initExpLog logm k x hm hk hx]
 
 end RS
